@@ -27,6 +27,7 @@ EXPLANATION = ("a: the linear path of AlphaMemoryIndex::filter* compares with th
                "fact-writing variant is under the wildcard arm), find_candidates = direct hit ∪ prefix matches, remove_rule undoes "
                "add_rule, BackwardEngine builds the index from kb.get_rules().")
 FLOORS = {"key_sites": 6}
+EXPLANATION += " b (added): inside the maintenance loops of insert and create_index the only condition on filing a fact under a field's index is `fact.get(field)` being Some, unfiltered - the same condition under which the linear scan can match it."
 
 AMI = "rete::alpha_memory_index::AlphaMemoryIndex"
 BMI = "rete::optimization::BetaMemoryIndex"
